@@ -298,11 +298,10 @@ func runPam(c pamCase) (runResult, error) {
 			buf := make([]byte, 8192)
 			want := c.ReadK
 			for {
-				if c.ReadAll {
-					if _, _, ok := vlib.RefDecodeParts(req, 4); ok {
-						break
-					}
-				} else if len(req) >= want {
+				if _, _, ok := vlib.RefDecodeParts(req, 4); ok {
+					break // the whole request is here (never wait for more than the module will send)
+				}
+				if !c.ReadAll && len(req) >= want {
 					break
 				}
 				conn.SetReadDeadline(time.Now().Add(3 * time.Second))
